@@ -157,6 +157,7 @@ func startDaemon(base string, maxMsg, maxBody int64, maxReq time.Duration) (*Dae
 	opts.MaxBodySize = maxBody
 	opts.MaxReqTimeout = maxReq
 	opts.QueueScanInterval = 10 * time.Millisecond
+	opts.QueueScanRefreshInterval = 20 * time.Millisecond // new channels are scanned (deferred messages released) promptly
 	opts.MsgTimeout = 60 * time.Second
 	opts.TLSRequired = nsqd.TLSNotRequired
 	d, err := os.MkdirTemp(base, "nsqd-")
@@ -408,9 +409,14 @@ func tcpSafe(s string) bool {
 
 type deferSpell struct{ canon, extra []string }
 
-func deferSpellings(class string, maxMs int64, rng *rand.Rand) deferSpell {
+// longSmall: twin experiments measure delivery times, so their short deferrals must be well above the
+// daemon's queue-scan interval (10 ms here) for a shortened deferral to be observable
+func deferSpellings(class string, maxMs int64, rng *rand.Rand, longSmall bool) deferSpell {
 	small := func() string {
 		hi := maxMs - 1
+		if longSmall && hi > 400 {
+			return strconv.FormatInt(150+rng.Int63n(250), 10)
+		}
 		if hi > 20 {
 			hi = 20
 		}
@@ -526,6 +532,7 @@ type Concretiser struct {
 	maxBody   int64
 	maxDefer  int64
 	canonical bool // digits-only defer spellings and TCP-safe invalid names (twin experiments)
+	longSmall bool // short deferrals of 150..400 ms instead of 1..20 ms (twin experiments)
 }
 
 func (cz *Concretiser) name(sym string, m map[string]string) string {
@@ -628,7 +635,7 @@ func (cz *Concretiser) concretise(r Req, nm Names) (*Concrete, error) {
 		q = append(q, kv{"channel", cz.name(t, nm.C)})
 	}
 	for i, d := range r.Defer {
-		sp := deferSpellings(d, cz.maxDefer, rng)
+		sp := deferSpellings(d, cz.maxDefer, rng, cz.longSmall)
 		l := sp.canon
 		if !cz.canonical {
 			l = append(append([]string{}, sp.canon...), sp.extra...)
